@@ -66,7 +66,7 @@ def read_stream(run, drv, n_cases, malformed=False, cases=None):
         feats = rng.choice([G.FEATS_PLAIN, G.FEATS_PLAIN, G.FEATS_NESTED])
         full = list(bs)
         full.insert(sd, n)
-        ix = G.gen_index(rng, full, malformed=malformed)
+        ix = G.gen_index_spec(rng, full, malformed=malformed)
         neg = rng.random() < 0.3
         metas.append((bs, n, sd, feats, ix, neg))
     if cases is not None:
@@ -161,7 +161,7 @@ def write_stream(run, drv, n_cases):
         feats = rng.choice([G.FEATS_PLAIN, G.FEATS_PLAIN, G.FEATS_NESTED])
         full = list(bs)
         full.insert(sd, n)
-        ix = G.gen_index(rng, full, malformed=rng.random() < 0.08)
+        ix = G.gen_index_spec(rng, full, malformed=rng.random() < 0.08)
         if G.has_dup_targets(ix):
             # duplicate targets: torch leaves the winner unspecified
             negs = True
@@ -535,7 +535,7 @@ def two_level_stream(run, drv, n_cases):
         full = list(bs)
         full.insert(sdin, nin)
         full.insert(sdout, nout)
-        ix = G.gen_index(rng, full)
+        ix = G.gen_index_spec(rng, full)
         metas.append((bs, nin, nout, sdin, sdout, ix))
         reqs.append(sx("c08.get2", ["bs"] + list(bs), nin, nout, sdin, sdout, fs, G.ixs_sx(ix)))
     answers = G.ask_all(drv, reqs)
@@ -606,7 +606,7 @@ def spec_stream(run, drv, n_cases):
     for _ in range(n_cases):
         rank = rng.choice([1, 2, 3, 3])
         shape = tuple(rng.choice([1, 2, 3, 4]) for _ in range(rank))
-        ix = [i for i in G.gen_index(rng, shape) if i[0] != "ell"]
+        ix = G.gen_index_spec(rng, shape, drop_ell=True)
         metas.append((shape, ix))
         reqs.append(sx("c08.spec", ["shape"] + list(shape), G.ixs_sx(ix)))
     answers = G.ask_all(drv, reqs)
